@@ -527,7 +527,55 @@ impl Evaluator {
                                 }
                                 return OneOf(alts);
                             }
-                            return U;
+                            // N within the string: counted in characters or in bytes, nothing else
+                            // (and nothing at all only where N bytes end inside a character)
+                            let mut alts: Vec<Option<RVal>> = Vec::new();
+                            let mut add = |v: Option<RVal>, alts: &mut Vec<Option<RVal>>| {
+                                let same = |a: &Option<RVal>, b: &Option<RVal>| match (a, b) {
+                                    (None, None) => true,
+                                    (Some(RVal::Str(x)), Some(RVal::Str(y))) => x == y,
+                                    _ => false,
+                                };
+                                if !alts.iter().any(|a| same(a, &v)) {
+                                    alts.push(v);
+                                }
+                            };
+                            let front = |alts: &mut Vec<Option<RVal>>, add: &mut dyn FnMut(Option<RVal>, &mut Vec<Option<RVal>>)| {
+                                if s.is_char_boundary(n) {
+                                    add(Some(RVal::Str(s[..n].to_string())), alts)
+                                } else {
+                                    add(None, alts)
+                                }
+                            };
+                            match f {
+                                "take" | "head" => {
+                                    add(Some(RVal::Str(first_k.clone())), &mut alts);
+                                    front(&mut alts, &mut add);
+                                }
+                                "take_last" => {
+                                    add(Some(RVal::Str(last_k.clone())), &mut alts);
+                                    if s.is_char_boundary(s.len() - n) {
+                                        add(Some(RVal::Str(s[s.len() - n..].to_string())), &mut alts);
+                                    } else {
+                                        add(None, &mut alts);
+                                    }
+                                }
+                                _ => {
+                                    add(Some(RVal::Str(last_k.clone())), &mut alts);
+                                    add(Some(RVal::Str(drop_k.clone())), &mut alts);
+                                    if s.is_char_boundary(s.len() - n) {
+                                        add(Some(RVal::Str(s[s.len() - n..].to_string())), &mut alts);
+                                    } else {
+                                        add(None, &mut alts);
+                                    }
+                                    if s.is_char_boundary(n) {
+                                        add(Some(RVal::Str(s[n..].to_string())), &mut alts);
+                                    } else {
+                                        add(None, &mut alts);
+                                    }
+                                }
+                            }
+                            return if alts.len() == 1 { Val(alts.pop().unwrap()) } else { OneOf(alts) };
                         }
                         match f {
                             "take" | "head" => val(RVal::Str(first_k)),
@@ -565,10 +613,18 @@ impl Evaluator {
                     Some(RVal::Arr(a)) => val(RVal::Arr(a.into_iter().skip(s).take(l).collect())),
                     Some(RVal::Obj(o)) => val(RVal::Obj(o.into_iter().skip(s).take(l).collect())),
                     Some(RVal::Str(t)) => {
+                        let by_chars: String = t.chars().skip(s).take(l).collect();
                         if !is_ascii_str(&t) {
-                            return U;
+                            // counted in characters or in bytes (nothing only where a byte
+                            // position lies inside a character), nothing else
+                            let (b0, b1) = (s.min(t.len()), s.saturating_add(l).min(t.len()));
+                            let by_bytes = if t.is_char_boundary(b0) && t.is_char_boundary(b1) { Some(RVal::Str(t[b0..b1].to_string())) } else { None };
+                            return match by_bytes {
+                                Some(RVal::Str(b)) if b == by_chars => val(RVal::Str(by_chars)),
+                                other => OneOf(vec![Some(RVal::Str(by_chars)), other]),
+                            };
                         }
-                        val(RVal::Str(t.chars().skip(s).take(l).collect()))
+                        val(RVal::Str(by_chars))
                     }
                     _ => nothing(),
                 }
